@@ -65,9 +65,9 @@ Fixpoint gr_lookup (t : list (Z * Z * (Z * Z * Z))) (state prop : Z) : option (Z
   end.
 Definition gr_trans (state prop : Z) : option (Z * Z * Z) := gr_lookup u_grTransitions state prop.
 
-(* transitionGraphemeState(state, r) = (newState, prop, boundary); state -1 matches no case *)
-Definition trans_grapheme (state r : Z) : Z * Z * bool :=
-  let prop := prop_graphemes r in
+(* transitionGraphemeState(state, r) = (newState, prop, boundary); state -1 matches no case.
+   It looks at r through its property only. *)
+Definition trans_prop (state prop : Z) : Z * Z * bool :=
   match gr_trans state prop with
   | Some (ns, b, _) => (ns, prop, b =? u_grBoundary)
   | None =>
@@ -79,6 +79,7 @@ Definition trans_grapheme (state r : Z) : Z * Z * bool :=
       | None, None => (u_grAny, prop, true)
       end
   end.
+Definition trans_grapheme (state r : Z) : Z * Z * bool := trans_prop state (prop_graphemes r).
 
 (* utf8.DecodeRune: (rune, size); invalid or incomplete input is (U+FFFD, 1), empty input (U+FFFD, 0) *)
 Definition go_decode_rune (inp : list Z) : Z * Z :=
@@ -96,7 +97,7 @@ Definition ustate := option (Z * Z).
    Result: (bytes of the cluster, width, new state). *)
 Fixpoint ustep_loop (fuel : nat) (buf : list Z) (gs firstProp width len : Z) : Z * Z * ustate :=
   match fuel with
-  | O => (len, width, Some (u_grAny, firstProp))
+  | O => (len, width, None)   (* not reached: every iteration takes at least one of the [length buf] bytes *)
   | S f =>
       let '(r, l) := go_decode_rune (zskipn len buf) in
       let '(gs', prop, boundary) := trans_grapheme gs r in
